@@ -28,6 +28,16 @@ fn cases(_rng: &mut Rng, sink: &mut dyn FnMut(J) -> bool) {
             }
         }
     }
+    // many objects in one credential, decoys on
+    for kind in ["records20", "records34", "records40", "records82", "records150"] {
+        for strategy in ["AllLevels", "NoSD", "TopLevel"] {
+            n += 1;
+            let alg = ["ES256", "EdDSA", "HS256"][n % 3];
+            if !sink(json!({"threads": 1, "per_thread": 2, "reuse_issuer": n % 2 == 0, "same_claims": true, "decoys": true, "format": if n % 2 == 0 { "compact" } else { "json" }, "claims_kind": kind, "strategy": strategy, "alg": alg})) {
+                return;
+            }
+        }
+    }
     // one issuer instance, the identical request repeated with the serialization format
     // alternating (Compact, JSON, Compact, ...) or in blocks (C, C, J, J, ...)
     for (threads, per_thread) in [(1usize, 6usize), (2, 10), (1, 40)] {
@@ -77,6 +87,9 @@ fn worker(t: usize, per_thread: usize, reuse: bool, same_claims: bool, decoys: b
         };
         let claims = if kind == "empty_objects" {
             json!({"iss": "i", "exp": FAR_EXP, "sub": format!("s{}", if same_claims { 0 } else { i }), "e": {}, "arr": [{}, {"k": {}}, [{}]], "o": {"inner": {}, "x": 1}})
+        } else if let Some(n) = kind.strip_prefix("records").and_then(|n| n.parse::<usize>().ok()) {
+            let records: Vec<J> = (0..n / 2).map(|r| json!({"id": r, "d": {"v": if same_claims { 0 } else { i }}})).collect();
+            json!({"iss": "i", "exp": FAR_EXP, "records": records})
         } else if kind == "nested_objects" {
             json!({"iss": "i", "exp": FAR_EXP, "sub": format!("s{}", if same_claims { 0 } else { i }), "o": {"p": {"q": {"r": 1}}, "x": 1}, "arr": [{"k": 1}, {"k": 2}, [{"z": 1}]], "b": {"c": 2}})
         } else if same_claims {
